@@ -209,10 +209,34 @@ def _impl(tier, seed, search):
         '(SO3.Rz([a,b])*array)[:,0]': (lambda: np.asarray(SO3.Rz([th, a1]) * np.array([1.0, 2.0, 3.0]), dtype=object)[:, 0], lambda t, u: (SO3.Rz(t) * np.array([1.0, 2, 3])).flatten(), [th, a1]),
         '(SE3.Ry([0.3,a])*(1,2,3))[:,1]': (lambda: np.asarray(SE3.Ry([0.3, th]) * (1, 2, 3), dtype=object)[:, 1], lambda t: (SE3.Ry(t) * np.array([1.0, 2, 3])).flatten(), [th]),
         'trinv2(trot2(a,t=[x,y]))': (lambda: b.trinv2(b.trot2(th, t=[x, y])), lambda t, x_, y_: b.trinv2(b.trot2(t, t=[x_, y_])), [th, x, y]),
+        # integer powers of symbolic poses, angles in degrees given as separate scalars
+        'SE3**3': (lambda: SE3.Rx(th, t=[x, y, z]) ** 3, lambda t, x_, y_, z_: SE3.Rx(t, t=[x_, y_, z_]) ** 3, [th, x, y, z]), 'SO3**2': (lambda: SO3.Ry(a1) ** 2, lambda u: SO3.Ry(u) ** 2, [a1]),
+        '(SE3.Rz([a,b])**2)[1]': (lambda: (SE3.Rz([th, a1]) ** 2).data[1], lambda t, u: SE3.Rz(u) ** 2, [th, a1]), '(SE3.Rx*SE3.Tx)**2': (lambda: (SE3.Rx(th) * SE3.Tx(x)) ** 2, lambda t, x_: (SE3.Rx(t) * SE3.Tx(x_)) ** 2, [th, x]),
+        'SE3**1': (lambda: SE3.Rx(th) ** 1, lambda t: SE3.Rx(t) ** 1, [th]),
+        'eul2r(a,b,c,deg)': (lambda: b.eul2r(a1, a2, a3, unit='deg'), lambda p, q, r: b.eul2r(p, q, r, unit='deg'), [a1, a2, a3]), 'eul2tr(25,b,110,deg)': (lambda: b.eul2tr(25, a2, 110, unit='deg'), lambda q: b.eul2tr(25, q, 110, unit='deg'), [a2]),
+        'rpy2r(a,b,c,deg,xyz)': (lambda: b.rpy2r(a1, a2, a3, unit='deg', order='xyz'), lambda p, q, r: b.rpy2r(p, q, r, unit='deg', order='xyz'), [a1, a2, a3]), 'rpy2tr(a,b,c,deg)': (lambda: b.rpy2tr(a1, a2, a3, unit='deg'), lambda p, q, r: b.rpy2tr(p, q, r, unit='deg'), [a1, a2, a3]),
         'Twist3.Rx': (lambda: Twist3.Rx([th]).S, lambda t: Twist3.Rx([t]).S, [th]), 'Twist3.Ry': (lambda: Twist3.Ry([th]).S, lambda t: Twist3.Ry([t]).S, [th]), 'Twist3.Rz': (lambda: Twist3.Rz([th]).S, lambda t: Twist3.Rz([t]).S, [th]),
     }
     for name, (symcall, numcall, syms) in ENT.items():
         compare(name, symcall, numcall, syms)
+    # tiny numeric values (a translation of a few 1e-9): the numeric path still evaluates the symbolic expression, nothing is treated as zero
+    for name, symf, numf, syms_ in (('SE3.Rx(a,t=).Ad() tiny t', lambda: SE3.Rx(th, t=[x, y, z]).Ad(), lambda t_, x_, y_, z_: SE3.Rx(t_, t=[x_, y_, z_]).Ad(), [th, x, y, z]),
+                                    ('adjoint(trotx(a,t=)) tiny t', lambda: b.adjoint(b.trotx(th, t=[x, y, z])), lambda t_, x_, y_, z_: b.adjoint(b.trotx(t_, t=[x_, y_, z_])), [th, x, y, z]),
+                                    ('tr2jac(trotx(a,t=),samebody) tiny t', lambda: b.tr2jac(b.trotx(th, t=[x, y, z]), True), lambda t_, x_, y_, z_: b.tr2jac(b.trotx(t_, t=[x_, y_, z_]), True), [th, x, y, z]),
+                                    ('SE3.inv tiny t', lambda: SE3.Rx(th, t=[x, y, z]).inv(), lambda t_, x_, y_, z_: SE3.Rx(t_, t=[x_, y_, z_]).inv(), [th, x, y, z])):
+        try:
+            S_ = symf(); S_ = S_.A if hasattr(S_, 'A') and not isinstance(S_, np.ndarray) else S_
+            Sa = np.array(S_, dtype=object); ft = sp.lambdify(syms_, [sp.sympify(e_) for e_ in Sa.flat], 'math')
+        except Exception: continue
+        for pt_ in ((0.7, 4e-9, -7e-9, 2e-9), (-1.2, 1e-9, 0.0, -3e-9), (0.3, 5e-9, 5e-9, 5e-9)):
+            L.count('sym-point(tiny)', key=(name, pt_))
+            try:
+                N_ = numf(*pt_); N_ = N_.A if hasattr(N_, 'A') and not isinstance(N_, np.ndarray) else N_
+                Na = np.asarray(N_, float); Sv = np.array(ft(*pt_), float).reshape(Na.shape)
+            except Exception as e:
+                L.fail(f'sym-eval:{name}', f'{name}: evaluation raised {type(e).__name__}', dict(entry=name, point=pt_)); break
+            if not np.allclose(Sv, Na, rtol=0, atol=1e-15):
+                L.fail(f'sym-value:{name}', f'{name}: with translations of a few 1e-9 the numeric result differs from the symbolic result at the same numbers', dict(entry=name, point=pt_), observed=Sv, required=Na); break
     # numeric arguments held in a narrower NumPy type (np.float32 scalars): the numeric path is still the double-precision value of the
     # symbolic expression at that number
     for name, symf, numf in (('rotx(float32)', lambda: b.rotx(th), b.rotx), ('roty(float32)', lambda: b.roty(th), b.roty), ('rotz(float32)', lambda: b.rotz(th), b.rotz), ('trotx(float32)', lambda: b.trotx(th), b.trotx),
